@@ -127,21 +127,47 @@ def find_try_handler(node, stop, exc_names):
         par = getattr(t, "_parent", None)
         if isinstance(par, ast.Try) and any(b is t or any(n is t for n in ast.walk(b)) for b in par.body):
             for h in par.handlers:
-                names = []
                 if h.type is None:
                     return h
-                for n in ([h.type] if not isinstance(h.type, ast.Tuple) else h.type.elts):
-                    names.append(dotted(n) or "?")
-                if any(n.split(".")[-1] in exc_names for n in names):
+                if any(n in exc_names for n in handler_names(h)):
                     return h
         t = par
     return None
 
 
-def handler_names(h):
+def _module_of(node):
+    n = node
+    while n is not None:
+        if hasattr(n, "_module") and isinstance(n, ast.Module):
+            return n._module
+        if isinstance(n, ast.Module):
+            return getattr(n, "_module", None)
+        n = getattr(n, "_parent", None)
+    return None
+
+
+def handler_names(h, dotted_names=False):
+    """exception class names an `except` clause catches; a name bound at module level to a tuple of exception classes
+    (`_ERRORS = (A, B)` ... `except _ERRORS`) is expanded"""
     if h.type is None:
         return ["<bare>"]
-    return [(dotted(n) or "?").split(".")[-1] for n in ([h.type] if not isinstance(h.type, ast.Tuple) else h.type.elts)]
+    out = []
+    mod = _module_of(h)
+
+    def add(n, depth=0):
+        if isinstance(n, ast.Tuple):
+            for e in n.elts:
+                add(e, depth)
+            return
+        if isinstance(n, ast.Name) and mod is not None and depth < 3:
+            b = mod.env.get(n.id)
+            if b and b[0] == "assign" and isinstance(b[1], (ast.Tuple, ast.Name)):
+                add(b[1], depth + 1)
+                return
+        out.append((dotted(n) or "?") if dotted_names else (dotted(n) or "?").split(".")[-1])
+
+    add(h.type)
+    return out
 
 
 def raises_in(body):
